@@ -35,6 +35,7 @@ FEATURES = [
     'misaligned',          # water level on another step (2/3 of the rain step), interpolated by load
     'fine_offgrid_gap',    # water level at half the rain step with single off-grid readings missing
     'long',
+    'very_long',           # thousands of steps (chunked writes, batch sizes, quadratic loops)
     'epoch_zero',          # the record starts at 1970-01-01 00:00:00 UTC (epoch 0)
     'many_stretches',      # 10-14 gaps: data-interval labels reach two digits
     'displace_exhaust',    # a displaced storm with no candidate left
@@ -204,6 +205,8 @@ def gen(rng, force=None, dyadic=None, max_segments=10):
         middle = force
     elif force in ('long', 'many_stretches'):
         nseg = rng.randint(40, 80)
+    elif force == 'very_long':
+        nseg = rng.randint(500, 1400)
     if force == 'no_rain':
         for _ in range(rng.randint(1, 4)):
             seg(rng.choice(['dry', 'mystery']))
